@@ -197,6 +197,7 @@ loop:
 		}
 
 		// Send it off for compression and storage
+		verifYield("ChunkStream.feed")
 		select {
 		case <-ctx.Done():
 			interrupted = true
